@@ -12,6 +12,12 @@ namespace GcArena.C10
 
 open GcArena
 
+/-! "`allocation_debt` is always finite": the model computes the debt in exact rationals (`Rat`),
+    where every value is finite by construction, so there is nothing to state; finiteness of the
+    implementation's `f64` (no `inf` / `NaN`: the counters are `usize`, the factors whatever
+    finite `f64`s `set_pacing` / `adjust_debt` were given) is outside the model — f64 arithmetic
+    is modelled, not verified (DESIGN §9). -/
+
 /-- `allocation_debt` is never negative. -/
 theorem debt_nonneg (m : Metrics) : 0 ≤ m.allocationDebt := by
   unfold Metrics.allocationDebt
@@ -25,7 +31,10 @@ theorem debt_nonneg (m : Metrics) : 0 ≤ m.allocationDebt := by
 theorem debt_zero_of_empty (m : Metrics) (h : m.totalGcs = 0) : m.allocationDebt = 0 := by
   simp [Metrics.allocationDebt, h]
 
-/-- While positive before and after, `adjust_debt x` moves the debt by exactly `x`. -/
+/-- While positive before and after, `adjust_debt x` moves the debt by exactly `x` — the
+    property's "grows by exactly x after adjust_debt(x) while positive"; the two side conditions
+    *are* "while positive" (at zero the reported debt is clamped, so no exact law can hold
+    there). -/
 theorem adjust_exact (m : Metrics) (x : Rat) (h1 : 0 < m.allocationDebt)
     (h2 : 0 < (m.adjustDebt x).allocationDebt) :
     (m.adjustDebt x).allocationDebt = m.allocationDebt + x := by
@@ -63,7 +72,12 @@ Operations are classified in Proofs/DebtMono.lean:
   `Finalization::resurrect` — they *perform marking work themselves* (`Context::trace` /
   `trace_weak`), for which `mark_factor` is credited: collection work in the property's sense;
 * every other mutator operation (`Op.isMutator`: everything but collection calls and dropping the
-  arena) is *plain*: `plain_ops` lists them. -/
+  arena) is *plain*: `plain_ops` lists them.
+
+The clause as literally worded (`debt_never_decreased_literal`) is false — the forward-like
+operations pay `mark_factor` — so what is proved is `debt_never_decreased_partial` (plain
+operations) together with `debt_forward_work` (forward-like ones pay at most `mark_factor`, the
+marking work they perform themselves). -/
 
 /-- The plain mutator operations: callbacks, allocation, reads, `downgrade`, `upgrade`, the
     `is_dropped` / `is_dead` queries, backward (write) barriers — strong and weak —, every store
@@ -87,10 +101,51 @@ theorem plain_ops (op : Op) :
     `trace_factor` must not be negative: a write barrier that re-grays a black object takes one
     `traced` credit back, which *raises* the debt by `trace_factor`; a negative factor would turn
     that into a payment. -/
-theorem debt_never_decreased (a : Arena) (op : Op) (hop : op.isMutator = true) (hk : op.isKnob = false)
-    (hf : op.isForwardLike = false) (htf : 0 ≤ a.ctx.metrics.pacing.traceFactor) :
+theorem debt_never_decreased_partial (a : Arena) (op : Op) (hop : op.isMutator = true)
+    (hk : op.isKnob = false) (hf : op.isForwardLike = false)
+    (htf : 0 ≤ a.ctx.metrics.pacing.traceFactor) :
     a.ctx.metrics.allocationDebt ≤ (a.step op).1.ctx.metrics.allocationDebt :=
   (step_plainMet a op hop hk hf).debt htf
+
+/-- The clause as the property words it, literally: *no* mutator operation other than the explicit
+    adjustments — allocation, mutation, **every** barrier, forward barriers and `resurrect`
+    included — ever lowers the reported debt (in a state satisfying the invariant, with
+    non-negative factors).  It is **false** of the model and of the implementation
+    (`debt_never_decreased_literal_false`): a forward barrier that marks a white object is credited
+    `mark_factor`.  That is the known finding `forward-like-barrier-pays-mark-credit`; the reading
+    adopted (DESIGN §8) counts that credit as collection work, which `debt_forward_work` makes
+    precise, and what remains of the clause is `debt_never_decreased_partial`: missing from the
+    literal clause are exactly the forward-like operations (`Op.isForwardLike`). -/
+def debt_never_decreased_literal : Prop :=
+  ∀ (a : Arena), Inv a → ∀ (op : Op), op.isMutator = true → op.isKnob = false →
+    0 ≤ a.ctx.metrics.pacing.traceFactor → 0 ≤ a.ctx.metrics.pacing.markFactor →
+    a.ctx.metrics.allocationDebt ≤ (a.step op).1.ctx.metrics.allocationDebt
+
+/-- `finish_marking`, then inside `finalize` one allocation (under `Pacing::DEFAULT`: debt 1). -/
+def fwdOps : List Op := [
+  .collect .finishMarking .finalize none (some [.wake, .markStep none, .markBreak]),
+  .enter .finalize, .alloc false [] ]
+
+private theorem fwd_before : ((Arena.new 4).run fwdOps).ctx.metrics =
+    { pacing := Pacing.default, totalGcs := 1, wakeup := 0, artificial := 0, allocated := 1,
+      dropped := 0, freed := 0, marked := 0, traced := 0, remembered := 0, underflow := false } := by rfl
+
+private theorem fwd_after : (((Arena.new 4).run fwdOps).step (.barrier (.fb none 0))).1.ctx.metrics =
+    { pacing := Pacing.default, totalGcs := 1, wakeup := 0, artificial := 0, allocated := 1,
+      dropped := 0, freed := 0, marked := 1, traced := 0, remembered := 0, underflow := false } := by rfl
+
+/-- The literal clause is false: in the reachable state after `fwdOps`, the forward barrier
+    `forward_barrier(None, 0)` marks the fresh white object and the reported debt drops from `1`
+    to `1 - mark_factor = 0.9`. -/
+theorem debt_never_decreased_literal_false : ¬ debt_never_decreased_literal := by
+  intro hlit
+  have h := hlit _ (inv_run 4 fwdOps (by decide)) (.barrier (.fb none 0)) rfl rfl
+    (by rw [fwd_before]; unfold Pacing.default; simp only; grind)
+    (by rw [fwd_before]; unfold Pacing.default; simp only; grind)
+  rw [fwd_before, fwd_after] at h
+  unfold Metrics.allocationDebt Metrics.cycleDebits Metrics.cycleCredits Pacing.default at h
+  simp only at h
+  grind
 
 /-- What a plain mutator operation can do to the metrics at all: nothing, count one allocation
     (only `Op.alloc`), or take back one `traced` (a write barrier re-graying a black object). -/
@@ -190,7 +245,7 @@ example : (0 : Rat) < ({ Metrics.new with totalGcs := 3, allocated := 3 } : Metr
   unfold Metrics.allocationDebt Metrics.new Metrics.cycleDebits Metrics.cycleCredits Pacing.default
   grind
 
-/-- The hypothesis `0 ≤ trace_factor` of `debt_never_decreased` is needed: with a negative factor
+/-- The hypothesis `0 ≤ trace_factor` of `debt_never_decreased_partial` is needed: with a negative factor
     the `traced` credit a write barrier takes back lowers the debt (here 11 → 10). -/
 example :
     let m : Metrics := { Metrics.new with pacing := { Pacing.default with traceFactor := -1 },
